@@ -744,11 +744,15 @@ impl TranspositionTable {
 
     fn find(&self, hash: Hash) -> Option<&TranspositionEntry> {
         let bucket = hash as usize % self.buckets.len();
+        #[cfg(weechess_verif)]
+        verif::log_find(hash, self.buckets[bucket].find(hash));
         self.buckets[bucket].find(hash)
     }
 
     fn insert(&mut self, hash: Hash, entry: TranspositionEntry) {
         let index = hash as usize % self.buckets.len();
+        #[cfg(weechess_verif)]
+        verif::log_insert(hash, &entry);
         if self.buckets[index]
             .insert_or_replace(hash, entry)
             .inserted()
@@ -920,7 +924,228 @@ impl CancellationToken {
     }
 
     fn is_cancelled(&self) -> bool {
+        #[cfg(weechess_verif)]
+        if verif::poll_hook() {
+            return true;
+        }
         self.cancelled.load(Ordering::Relaxed)
+    }
+}
+
+/// Verification hooks (only compiled with `--cfg weechess_verif`): expose the private table
+/// types, a synchronous search entry point with an explicit worker count, a deterministic
+/// cancellation instant (counted in polls), artifact construction/inspection and an operation log
+/// taken inside the table's critical section. Nothing here changes behaviour when unused.
+#[cfg(weechess_verif)]
+pub mod verif {
+    use super::*;
+    use std::cell::RefCell;
+    use std::sync::atomic::{AtomicBool, AtomicI64, AtomicU64};
+
+    static CANCEL_AT_POLL: AtomicI64 = AtomicI64::new(-1);
+    static POLLS: AtomicU64 = AtomicU64::new(0);
+    static LOGGING: AtomicBool = AtomicBool::new(false);
+    static TICKET: AtomicU64 = AtomicU64::new(0);
+    static THREAD_IDS: AtomicU64 = AtomicU64::new(0);
+
+    /// (ticket, thread, is_insert, key, (kind, raw move, depth, max_depth, evaluation))
+    pub type LogRecord = (u64, u64, bool, u64, Option<(u8, u32, usize, usize, i32)>);
+
+    thread_local! {
+        static THREAD_ID: u64 = THREAD_IDS.fetch_add(1, Ordering::SeqCst);
+        static LOG: RefCell<Vec<LogRecord>> = RefCell::new(Vec::new());
+    }
+
+    static SHARED_LOG: std::sync::Mutex<Vec<LogRecord>> = std::sync::Mutex::new(Vec::new());
+
+    pub(super) fn poll_hook() -> bool {
+        let at = CANCEL_AT_POLL.load(Ordering::SeqCst);
+        if at < 0 {
+            return false;
+        }
+        let n = POLLS.fetch_add(1, Ordering::SeqCst);
+        (n as i64) >= at
+    }
+
+    /// `Some(k)`: the k-th (0-based) and all later polls of the cancellation flag answer "cancelled".
+    pub fn set_cancel_at_poll(k: Option<u64>) {
+        POLLS.store(0, Ordering::SeqCst);
+        CANCEL_AT_POLL.store(k.map(|k| k as i64).unwrap_or(-1), Ordering::SeqCst);
+    }
+
+    pub fn polls() -> u64 {
+        POLLS.load(Ordering::SeqCst)
+    }
+
+    fn kind_code(kind: EvaluationKind) -> u8 {
+        match kind {
+            EvaluationKind::Exact => 0,
+            EvaluationKind::UpperBound => 1,
+            EvaluationKind::LowerBound => 2,
+        }
+    }
+
+    fn kind_of(code: u8) -> EvaluationKind {
+        match code {
+            0 => EvaluationKind::Exact,
+            1 => EvaluationKind::UpperBound,
+            _ => EvaluationKind::LowerBound,
+        }
+    }
+
+    fn tuple_of(e: &TranspositionEntry) -> (u8, u32, usize, usize, i32) {
+        (
+            kind_code(e.kind),
+            e.performed_move.as_raw(),
+            e.depth,
+            e.max_depth,
+            e.evaluation.into(),
+        )
+    }
+
+    fn push(record: LogRecord) {
+        SHARED_LOG.lock().unwrap().push(record);
+    }
+
+    pub(super) fn log_find(hash: Hash, result: Option<&TranspositionEntry>) {
+        if LOGGING.load(Ordering::Relaxed) {
+            let t = TICKET.fetch_add(1, Ordering::SeqCst);
+            let id = THREAD_ID.with(|i| *i);
+            push((t, id, false, hash, result.map(tuple_of)));
+        }
+    }
+
+    pub(super) fn log_insert(hash: Hash, entry: &TranspositionEntry) {
+        if LOGGING.load(Ordering::Relaxed) {
+            let t = TICKET.fetch_add(1, Ordering::SeqCst);
+            let id = THREAD_ID.with(|i| *i);
+            push((t, id, true, hash, Some(tuple_of(entry))));
+        }
+    }
+
+    pub fn set_logging(on: bool) {
+        LOGGING.store(on, Ordering::SeqCst);
+    }
+
+    /// Drains the operation log, sorted by ticket (= order inside the critical sections of one
+    /// sub-table; tickets of different sub-tables are ordered by the global counter).
+    pub fn take_log() -> Vec<LogRecord> {
+        let mut log = std::mem::take(&mut *SHARED_LOG.lock().unwrap());
+        log.sort_by_key(|r| r.0);
+        LOG.with(|l| l.borrow_mut().clear());
+        log
+    }
+
+    pub struct Table(TranspositionTableAccess);
+
+    impl Table {
+        pub fn new(tables: usize, buckets: usize) -> Self {
+            Table(TranspositionTableAccess::with_tables(
+                (0..tables)
+                    .map(|_| TranspositionTable::with_bucket_count(buckets))
+                    .collect(),
+            ))
+        }
+
+        pub fn insert(&self, hash: u64, kind: u8, mv: u32, depth: usize, max_depth: usize, eval: i32) {
+            self.0.insert(
+                hash,
+                TranspositionEntry {
+                    kind: kind_of(kind),
+                    performed_move: Move::from_raw(mv),
+                    depth,
+                    max_depth,
+                    evaluation: Evaluation::from(eval),
+                },
+            );
+        }
+
+        pub fn find(&self, hash: u64) -> Option<(u8, u32, usize, usize, i32)> {
+            self.0.find(hash).map(|e| tuple_of(&e))
+        }
+
+        pub fn entries(&self) -> usize {
+            self.0.entries()
+        }
+
+        pub fn max_entries(&self) -> usize {
+            self.0.max_entries()
+        }
+    }
+
+    pub fn artifact_new(seed: u64, tables: usize, buckets: usize) -> SearchArtifact {
+        let mut rng = RandomNumberGenerator::seed_from_u64(seed);
+        SearchArtifact {
+            hasher: ZobristHasher::with(&mut rng),
+            transpositions: TranspositionTableAccess::with_tables(
+                (0..tables)
+                    .map(|_| TranspositionTable::with_bucket_count(buckets))
+                    .collect(),
+            ),
+            state_history: StateHistory::new(),
+        }
+    }
+
+    pub fn artifact_record(artifact: &mut SearchArtifact, state: &State) {
+        let hash = artifact.hasher.hash(state);
+        artifact.state_history.increment(hash);
+    }
+
+    pub fn artifact_hash(artifact: &SearchArtifact, state: &State) -> u64 {
+        artifact.hasher.hash(state)
+    }
+
+    pub fn artifact_find(artifact: &SearchArtifact, hash: u64) -> Option<(u8, u32, usize, usize, i32)> {
+        artifact.transpositions.find(hash).map(|e| tuple_of(&e))
+    }
+
+    pub fn artifact_entries(artifact: &SearchArtifact) -> (usize, usize) {
+        (
+            artifact.transpositions.entries(),
+            artifact.transpositions.max_entries(),
+        )
+    }
+
+    pub fn artifact_history(artifact: &SearchArtifact) -> Vec<(u64, usize)> {
+        let mut v: Vec<(u64, usize)> = artifact
+            .state_history
+            .states
+            .iter()
+            .map(|(k, v)| (*k, *v))
+            .collect();
+        v.sort();
+        v
+    }
+
+    /// Runs the real `analyze_iterative` on the calling thread.
+    pub fn analyze_sync<F>(
+        state: State,
+        seed: u64,
+        max_depth: Option<usize>,
+        previous_artifact: Option<SearchArtifact>,
+        workers: Option<usize>,
+        cancel_at_poll: Option<u64>,
+        f: &mut F,
+    ) -> SearchArtifact
+    where
+        F: FnMut(StatusEvent),
+    {
+        let rng = RandomNumberGenerator::seed_from_u64(seed);
+        let (_signal, listen) = CancellationToken::new();
+        let evaluator = eval::Evaluator::default();
+        set_cancel_at_poll(cancel_at_poll);
+        let artifact = Searcher::analyze_iterative(
+            state,
+            &evaluator,
+            rng,
+            max_depth,
+            listen,
+            previous_artifact,
+            workers,
+            f,
+        );
+        set_cancel_at_poll(None);
+        artifact
     }
 }
 
